@@ -9,6 +9,7 @@ import (
 	"fmt"
 	"math/rand"
 	"net/http/httptest"
+	"os"
 	"sort"
 	"strings"
 
@@ -22,6 +23,8 @@ type negoCase struct {
 	Accs       []string `json:"accs"`
 	// Accs2[i] != "": the request carries a SECOND Accept header field with that value
 	Accs2 []string `json:"accs2"`
+	// Compact: the handler switches pretty printing off (the streaming branch of the entity writers)
+	Compact bool `json:"compact"`
 }
 
 type negoPlan struct {
@@ -64,6 +67,9 @@ func runNegoCase(tw *traceWriter, c negoCase, registered []string, reps int) {
 		ws := new(restful.WebService).Path("/n")
 		ws.Route(ws.GET("/e").Produces(c.Produces...).To(func(req *restful.Request, resp *restful.Response) {
 			ran++
+			if c.Compact {
+				resp.PrettyPrint(false)
+			}
 			resp.WriteEntity(negoEntity{A: "x", N: 7})
 		}))
 		cont := restful.NewContainer()
@@ -129,7 +135,7 @@ func runNegoCase(tw *traceWriter, c negoCase, registered []string, reps int) {
 			r = 1
 		}
 		tw.emit(map[string]interface{}{"e": "nego", "produces": c.Produces, "registered": registered, "def": c.Def,
-			"acc": acc, "acc2": acc2, "ran": r, "sts": stl, "cts": ctl, "dec": dec, "panic": panicked})
+			"acc": acc, "acc2": acc2, "ran": r, "sts": stl, "cts": ctl, "dec": dec, "panic": panicked, "compact": c.Compact})
 	}
 }
 
@@ -193,7 +199,7 @@ func runNego(planPath, outPath string, seed int64) {
 		for _, k := range perm[:n] {
 			prod = append(prod, pool[k])
 		}
-		c := negoCase{Produces: prod, Def: pick(r, []string{"", "", "", restful.MIME_JSON, restful.MIME_XML})}
+		c := negoCase{Produces: prod, Def: pick(r, []string{"", "", "", restful.MIME_JSON, restful.MIME_XML}), Compact: r.Intn(3) == 0}
 		if all {
 			c.Registered = pool
 		} else {
@@ -222,6 +228,16 @@ func runNego(planPath, outPath string, seed int64) {
 			runNegoCase(tw, c, builtin, p.Reps)
 		}
 	}
+	// history: every later case was already asked for once while its writers were not registered yet (not judged:
+	// the property speaks about registered writers; what is looked up before must not be remembered after)
+	warm := newTraceWriter(outPath + ".warm")
+	for _, c := range cases {
+		if len(c.Registered) > 2 {
+			runNegoCase(warm, c, builtin, 1)
+		}
+	}
+	warm.close()
+	os.Remove(outPath + ".warm")
 	restful.RegisterEntityAccessor(mimeVnd, restful.NewEntityAccessorJSON(mimeVnd))
 	restful.RegisterEntityAccessor(mimeCustom, restful.NewEntityAccessorXML(mimeCustom))
 	all := []string{restful.MIME_JSON, restful.MIME_XML, mimeVnd, mimeCustom}
